@@ -218,12 +218,12 @@ Proof.
   - rewrite !app_nil_r. reflexivity.
 Qed.
 
-Lemma ev_rule7_of35 X r pos toks : (forall x0 r0, X = x0 :: r0 -> x0 = 64) -> X <> [] ->
+Lemma ev_rule7_of35 X r pos toks : (forall x0 r0, X = x0 :: r0 -> x0 <> 32) -> X <> [] ->
   evG (PRef 35) (X ++ 41 :: 93 :: r) (pos + 3) (POk (41 :: 93 :: r) (pos + 3 + List.length X) toks) ->
   evG (PRef 7) ([91; 63; 40] ++ X ++ [41; 93] ++ r) pos
       (POk r (pos + 5 + List.length X) (toks ++ [TAct 23; TText pos (pos + 5 + List.length X); TAct 7])).
 Proof.
-  intros Hx Hne E. destruct X as [|x0 X']; [contradiction Hne; reflexivity|]. pose proof (Hx x0 X' eq_refl) as E0. subst x0.
+  intros Hx Hne E. destruct X as [|x0 X']; [contradiction Hne; reflexivity|]. pose proof (Hx x0 X' eq_refl) as E0.
   eapply ev_ref; [reflexivity|].
   apply ev_alt_r; [apply ev_seq_fail; apply (ev_lit_fail G [46; 46]); reflexivity|].
   apply ev_alt_r; [apply ev_seq_fail; apply ev_cap_fail; apply ev_seq_fail; apply (ev_lit_fail G [46]); reflexivity|].
@@ -239,11 +239,11 @@ Proof.
         apply ev_alt_r; [eapply ev_ref; [reflexivity|]; apply ev_seq_fail; eapply ev_ref; [reflexivity|]; apply ev_seq_fail; apply (ev_lit_fail G [40]); reflexivity|].
         eapply ev_ref; [reflexivity|].
         eapply ev_seq_ok; [| |reflexivity].
-        -- eapply ev_ref; [reflexivity|]. eapply ev_seq_ok; [apply (ev_lit_ok G [63; 40]); reflexivity|apply ev_space_stop; discriminate|reflexivity].
+        -- eapply ev_ref; [reflexivity|]. eapply ev_seq_ok; [apply (ev_lit_ok G [63; 40]); reflexivity|apply ev_space_stop; exact E0|reflexivity].
         -- eapply ev_seq_ok; [| |reflexivity].
-           ++ pose proof (ev_rule33_of35 (64 :: X') (93 :: r) (pos + 3) _ _ E) as E33. cbn [app] in E33.
-              assert (E33' : evG (PRef 33) (64 :: X' ++ 41 :: 93 :: r) (pos + List.length [91] + List.length [63; 40])%nat
-                                 (POk (41 :: 93 :: r) (pos + 3 + List.length (64 :: X')) toks))
+           ++ pose proof (ev_rule33_of35 (x0 :: X') (93 :: r) (pos + 3) _ _ E) as E33. cbn [app] in E33.
+              assert (E33' : evG (PRef 33) (x0 :: X' ++ 41 :: 93 :: r) (pos + List.length [91] + List.length [63; 40])%nat
+                                 (POk (41 :: 93 :: r) (pos + 3 + List.length (x0 :: X')) toks))
                 by (replace (pos + List.length [91] + List.length [63; 40])%nat with (pos + 3)%nat by (cbn [List.length]; lia); exact E33).
               exact E33'.
            ++ eapply ev_seq_ok; [|apply ev_act|reflexivity].
@@ -282,7 +282,7 @@ Proof.
       rewrite <- !app_assoc. reflexivity. }
   replace (cmp_text isteps o lit ++ r) with ([91; 63; 40] ++ X ++ [41; 93] ++ r)
     by (unfold cmp_text, X; cbn [app]; rewrite <- !app_assoc; reflexivity).
-  eapply ev_conv; [apply (ev_rule7_of35 X r pos _ ltac:(unfold X; intros x0 r0 E; inversion E; reflexivity) ltac:(unfold X; discriminate) E35)|].
+  eapply ev_conv; [apply (ev_rule7_of35 X r pos _ ltac:(unfold X; intros x0 r0 E; inversion E; discriminate) ltac:(unfold X; discriminate) E35)|].
   rewrite cmp_text_len, HX.
   replace (pos + (6 + List.length (render_steps isteps) + List.length (op_text o) + List.length lit))%nat
     with (pos + 5 + (1 + List.length (render_steps isteps) + List.length (op_text o) + List.length lit))%nat by lia.
